@@ -153,6 +153,11 @@ func (r *ReaderStream) ReassemblyComplete() {
 // slices.
 func (r *ReaderStream) stripEmpty() {
 	for len(r.current) > 0 && len(r.current[0].Bytes) == 0 {
+		if r.LossErrors && !r.lossReported && r.current[0].Skip != 0 {
+			// A gap in front of a reassembly without data (e.g. a bare FIN)
+			// still has to be reported once before it is dropped.
+			return
+		}
 		r.current = r.current[1:]
 		r.lossReported = false
 	}
